@@ -298,7 +298,9 @@ class SimplifySymbolNames:
                     yield Simplification({symbol: Node('|' + s + '|')}, [])
         else:
             for s in self.__simpler(symbol):
-                if not is_var(Node(s)):
+                # The simpler version must not be a constant, e.g. v1 -> 1:
+                # all occurrences of that constant would become the symbol.
+                if not is_var(Node(s)) and not is_const(Node(s)):
                     yield Simplification({symbol: Node(s)}, [])
 
     def __simpler(self, symbol):
